@@ -26,7 +26,7 @@ ASSUMPTIONS = [
 GATES = {
     "median_two_blocks_both_axes": 1, "bilateral_two_blocks_both_axes": 1, "window_with_only_the_centre_valid": 1,
     "even_bilateral_width": 1, "image_smaller_than_nominal_width": 1, "median_for_intervals_runs": 2,
-    "pipeline_filter_steps": 5, "pixels_judged": 100000, "image_smaller_than_median_window": 1,
+    "pipeline_filter_steps": 5, "pixels_judged": 100000, "image_smaller_than_median_window": 1, "regularisation_applied_on_pixels_already_flagged": 1,
 }
 INVALID = 0b1111000011
 SIZES = [1, 2, 3, 5, 6, 7, 8, 9, 49, 50, 51, 52, 99, 100, 101, 102, 149, 150, 151, 201]
@@ -246,6 +246,10 @@ def run_case(case, ctx):
         fs = f.get("fs") or int(rng.choice([1, 3, 5]))
         params = {"filter_method": "median_for_intervals", "filter_size": fs,
                   "interval_indicator": ["", "b"][int(rng.integers(0, 2))]}
+        if rng.random() < 0.6:
+            params.update({"regularization": True, "ambiguity_indicator": "", "ambiguity_threshold": float(rng.choice([0.3, 0.6, 0.9])),
+                           "ambiguity_kernel_size": int(rng.choice([1, 3, 5])), "vertical_depth": int(rng.choice([0, 1, 2])),
+                           "quantile_regularization": float(rng.choice([0.8, 1.0]))})
         if H < fs or W < fs:
             ctx.ood()
             return
@@ -254,6 +258,25 @@ def run_case(case, ctx):
     filt.filter_disparity(ds)
     judge(ctx, case, desc, method, filt.cfg, d, m, ds["disparity_map"].data, ds["validity_mask"].data, conf,
           ds["confidence_measure"].data if conf is not None else None, names)
+    if method == "median_for_intervals" and params.get("regularization"):
+        # bit 11 is a flag: pixels that already carry it (input mask, or a previous regularising step) keep it,
+        # and no other bit may appear when the step is applied again
+        m1 = ds["validity_mask"].data.astype(np.int64).copy()
+        had = (m.astype(np.int64) & 2048) != 0
+        if (had & ((m1 & 2048) == 0)).any() or (m1 >= 4096).any():
+            i = np.argwhere((had & ((m1 & 2048) == 0)) | (m1 >= 4096))[0]
+            ctx.violation("regularisation-flag-not-a-bit", f"pixel {i.tolist()} flag {int(m[tuple(i)])} -> {int(m1[tuple(i)])}", case,
+                          situation="bit11-already-set", desc=desc)
+        c1 = ds["confidence_measure"].data.copy()
+        filt.filter_disparity(ds)
+        m2 = ds["validity_mask"].data.astype(np.int64)
+        judge(ctx, case, dict(desc, second_application=True), method, filt.cfg, ds["disparity_map"].data.copy() * 0 + d, m1.astype(np.uint16),
+              ds["disparity_map"].data, ds["validity_mask"].data, c1, ds["confidence_measure"].data, names)
+        if (((m1 & 2048) != 0) & ((m2 & 2048) == 0)).any() or (m2 >= 4096).any():
+            i = np.argwhere((((m1 & 2048) != 0) & ((m2 & 2048) == 0)) | (m2 >= 4096))[0]
+            ctx.violation("regularisation-flag-not-a-bit", f"second application: pixel {i.tolist()} flag {int(m1[tuple(i)])} -> {int(m2[tuple(i)])}",
+                          case, situation="applied-twice", desc=desc)
+        ctx.gate("regularisation_applied_on_pixels_already_flagged", int(bool(((m1 & 2048) != 0).any())))
     changed = not gen.same(d, ds["disparity_map"].data)
     ctx.case([method, params, [H, W], lay, step], nontrivial=bool(changed and ((m & INVALID) != 0).any()) or method == "median_for_intervals")
     if ctx.evaluations <= 2:
